@@ -1096,6 +1096,8 @@ class Executor:
             return z3.And(dt.is_some(a.z), self.eq(st, SV(ta.args[0], dt.val(a.z)), b))
         if tb.kind == 'opt' and ta.kind != 'opt':
             return self.eq(st, b, a)
+        if ta.kind == 'version' and tb.kind == 'version':
+            return a.z == b.z
         if ta.kind == 'union' or tb.kind == 'union':
             U = T.union_datatype()
             if ta.kind != 'union':
@@ -1162,6 +1164,13 @@ class Executor:
             return z3.Not(self.compare(st, ast.Is(), a, b, cx, node))
         if isinstance(op, (ast.Lt, ast.LtE, ast.Gt, ast.GtE)):
             a2, b2 = self.unwrap_num(st, a, cx, node), self.unwrap_num(st, b, cx, node)
+            if a2.ty.kind == 'version' and b2.ty.kind == 'version':
+                x, y = a2.z, b2.z
+                return {ast.Lt: x < y, ast.LtE: x <= y, ast.Gt: x > y, ast.GtE: x >= y}[type(op)]
+            if a2.ty.kind == 'cfg' and b2.ty.kind == 'str':
+                a2 = self.coerce(a2, STR)       # whatever the YAML holds there, compared as the code compares it
+            if b2.ty.kind == 'cfg' and a2.ty.kind == 'str':
+                b2 = self.coerce(b2, STR)
             if a2.ty.kind == 'str' and b2.ty.kind == 'str':
                 if isinstance(op, ast.Lt):
                     return a2.z < b2.z
